@@ -184,6 +184,7 @@ pub fn model_of(s: &Sealed, universe: &[CoinID], pool_keys: &[PoolKey], block_tx
         block_txs: block_txs.iter().map(|t| (t.hash_nosigs(), t.clone())).collect(),
         seen_pool_keys: pool_keys.iter().cloned().collect(),
         stake_txs_seen: Default::default(),
+        spent_recently: Default::default(),
     }
 }
 
